@@ -67,6 +67,7 @@ func (ft *FuncTr) instr(b *ssa.BasicBlock, st *State, at *Term, in ssa.Instructi
 			return false, unsupported("store of non-term value")
 		}
 		ft.checkImmutableStore(x.Addr)
+		ft.requireGuard(st, at, x.Addr, true, x.Pos())
 		ft.store(st, at, pv, ty, v.T, x.Pos(), exprText(ft, x.Addr))
 	case *ssa.UnOp:
 		return false, ft.unop(st, at, x)
@@ -86,6 +87,11 @@ func (ft *FuncTr) instr(b *ssa.BasicBlock, st *State, at *Term, in ssa.Instructi
 			return false, unsupported("FieldAddr on non-pointer")
 		}
 		ft.assertNonNil(at, base, exprText(ft, x), "pointer must not be nil", x.Pos())
+		if muIdx, gname, ok := ft.w.guardedField(sty, x.Field); ok {
+			ft.noteGuard(x, &guardRef{mu: PFld(base, muIdx), base: base, field: gname})
+		} else if g := ft.guardInfo[x.X]; g != nil {
+			ft.noteGuard(x, g) // a field of a guarded struct value
+		}
 		if isStructT(fty) || isArrayT(fty) {
 			ft.vals[x] = Val{T: PFld(base, x.Field)}
 		} else {
@@ -95,6 +101,9 @@ func (ft *FuncTr) instr(b *ssa.BasicBlock, st *State, at *Term, in ssa.Instructi
 		v := ft.term(x.X)
 		ft.define(x, ft.project(v, PathElem{field: x.Field, ty: x.X.Type()}))
 	case *ssa.IndexAddr:
+		if g := ft.guardInfo[x.X]; g != nil {
+			ft.noteGuard(x, g)
+		}
 		return false, ft.indexAddr(st, at, x)
 	case *ssa.Index:
 		v := ft.term(x.X)
@@ -107,10 +116,12 @@ func (ft *FuncTr) instr(b *ssa.BasicBlock, st *State, at *Term, in ssa.Instructi
 			return false, unsupported("Index on " + x.X.Type().String())
 		}
 	case *ssa.Lookup:
+		ft.requireGuard(st, at, x.X, false, x.Pos())
 		return false, ft.lookup(st, at, x)
 	case *ssa.MapUpdate:
 		m := ft.term(x.Map)
 		mt := x.Map.Type().Underlying().(*types.Map)
+		ft.requireGuard(st, at, x.Map, true, x.Pos())
 		ft.assert(at, Not(IsNil(m)), "safety.nilmap", exprText(ft, x.Map), "assignment to entry in nil map", x.Pos())
 		ft.mapWriteFrame(st, at, mt, m, x.Pos())
 		if pointerLike(ft.term(x.Value).Sort) || pointerLike(ft.term(x.Key).Sort) {
@@ -169,6 +180,10 @@ func (ft *FuncTr) instr(b *ssa.BasicBlock, st *State, at *Term, in ssa.Instructi
 	case *ssa.Range:
 		switch mt := x.X.Type().Underlying().(type) {
 		case *types.Map:
+			ft.requireGuard(st, at, x.X, false, x.Pos())
+			if g := ft.guardInfo[x.X]; g != nil {
+				ft.noteGuard(x, g)
+			}
 			m := ft.term(x.X)
 			ks := ft.w.sortOf(ft.d, mt.Key())
 			st.iters[x] = ConstArray(SArray(ks, SBool), TFalse)
@@ -179,6 +194,7 @@ func (ft *FuncTr) instr(b *ssa.BasicBlock, st *State, at *Term, in ssa.Instructi
 			return false, unsupported("range over " + x.X.Type().String())
 		}
 	case *ssa.Next:
+		ft.requireGuard(st, at, x.Iter, false, x.Pos())
 		return false, ft.next(st, at, x)
 	case *ssa.Call:
 		v, err := ft.call(st, at, x, x.Common(), x)
@@ -297,6 +313,13 @@ func (ft *FuncTr) unop(st *State, at *Term, x *ssa.UnOp) error {
 	case token.MUL:
 		pv := ft.val(x.X)
 		ty := x.X.Type().Underlying().(*types.Pointer).Elem()
+		ft.requireGuard(st, at, x.X, false, x.Pos())
+		if g := ft.guardInfo[x.X]; g != nil {
+			switch ty.Underlying().(type) {
+			case *types.Map, *types.Slice:
+				ft.noteGuard(x, g) // the contents of a guarded map / slice are guarded too
+			}
+		}
 		t := ft.load(st, at, pv, ty, x.Pos(), exprText(ft, x.X))
 		ft.define(x, t)
 	case token.NOT:
